@@ -43,7 +43,7 @@ Section Sound.
   Let ev_psub := peval_psub R rO rI radd rmul rsub ropp req phi Rsth Reqe Rth Rphi.
   Let ev_pscale := peval_pscale R rO rI radd rmul rsub ropp req phi Rsth Reqe Rth Rphi.
   Let ev_pconst := peval_pconst R rO rI radd rmul rsub ropp req phi Rsth Reqe Rth.
-  Let ev_psubst := peval_psubst R rO rI radd rmul rsub ropp req phi Rsth Reqe Rth Rphi.
+  Let ev_psubst := peval_psubstn R rO rI radd rmul rsub ropp req phi Rsth Reqe Rth Rphi.
 
   (* finite sums *)
   Definition rsum (f : nat -> R) (l : list nat) : R := fold_right (fun k acc => f k + acc) rO l.
